@@ -395,6 +395,35 @@ impl std::fmt::Display for E {
 }
 impl std::error::Error for E {}
 
+static OUTCOME_FORM: std::sync::atomic::AtomicUsize = std::sync::atomic::AtomicUsize::new(0);
+
+/// "Retry exactly `rem`", built in rotation through every public way a processor can arrive at it (directly, by
+/// attaching a remainder to a non-retryable error, by replacing the remainder of a retryable one, by taking an error
+/// apart and rebuilding it): the receiver must re-deliver `rem` whichever was used (theorem C06.outcome_forms_agree).
+fn retry_outcome(rem: Vec<u64>) -> BatchError<Vec<u64>> {
+    match OUTCOME_FORM.fetch_add(1, std::sync::atomic::Ordering::Relaxed) % 4 {
+        0 => BatchError::retry(E, rem),
+        1 => BatchError::<Vec<u64>>::no_retry(E).map_retryable(|_| Some(rem)),
+        2 => BatchError::retry(E, vec![u64::MAX]).map_retryable(|r| r.map(|_| rem)),
+        _ => match BatchError::retry(E, rem).try_into_retryable() {
+            Ok(r) => BatchError::retry(E, r),
+            Err(e) => e,
+        },
+    }
+}
+
+/// "Failed, nothing to retry", likewise.
+fn fail_outcome() -> BatchError<Vec<u64>> {
+    match OUTCOME_FORM.fetch_add(1, std::sync::atomic::Ordering::Relaxed) % 3 {
+        0 => BatchError::no_retry(E),
+        1 => BatchError::retry(E, vec![u64::MAX]).map_retryable(|_| None),
+        _ => match BatchError::<Vec<u64>>::no_retry(E).try_into_retryable() {
+            Ok(r) => BatchError::retry(E, r),
+            Err(e) => e,
+        },
+    }
+}
+
 struct BatchGate(Shared);
 impl Future for BatchGate {
     type Output = Result<(), BatchError<Vec<u64>>>;
@@ -407,8 +436,8 @@ impl Future for BatchGate {
                 drop(sh);
                 match o {
                     Scripted::Ok => Poll::Ready(Ok(())),
-                    Scripted::Fail => Poll::Ready(Err(BatchError::no_retry(E))),
-                    Scripted::Retry(rem) => Poll::Ready(Err(BatchError::retry(E, rem))),
+                    Scripted::Fail => Poll::Ready(Err(fail_outcome())),
+                    Scripted::Retry(rem) => Poll::Ready(Err(retry_outcome(rem))),
                     Scripted::PanicAsync => panic!("scripted panic inside the on_batch future"),
                 }
             }
